@@ -1508,12 +1508,11 @@ def run(ck: Ck) -> None:
     if built:
         started = start_exhaustive_model(ck)
         th = U.theorems_in_background(ck, 'Props/C03.v')
-        ck.instance_obligations(U.IMPORTS + ['SV.Text.TokenizerProofs'], {
+        U.instance_obligations_parallel(ck, [(U.IMPORTS + ['SV.Text.TokenizerProofs'], {
             'EOF_is_not_an_operator_token': 'ops_no_eof gen_tables',
             'token_enum_values_distinct': 'token_values_distinct',
             'operators_name_known_tokens': 'operators_all_known',
-        })
-        ck.instance_obligations(KV_IMPORTS, {
+        }, 'inst'), (KV_IMPORTS, {
             'keyvalues_parse_every_modelled_site_guarded': 'kv_sites_all_guarded',
             'read_flag_leading_bang_test_cannot_raise': 'bang_total gen_kcfg',
             'flag_replace_test_block_only_indexes_nonempty_list': 'guard_replace_block gen_kcfg',
@@ -1529,14 +1528,12 @@ def run(ck: Ck) -> None:
             'tokenizer_pushes_back_only_after_a_read': 'tokenizer_pushes_back_only_after_a_read',
             'keyvalues_parse_raises_only_KeyValError': 'kvparse_raises_only_keyvalerror',
             'keyvalues_parse_installs_KeyValError_on_the_tokenizer_on_every_path': 'kvparse_tokenizer_errors_are_keyvalerror',
-        }, name='kvinst')
-        ck.instance_obligations(BT_IMPORTS, {
+        }, 'kvinst'), (BT_IMPORTS, {
             'pushback_list_is_a_stack_LIFO': 'pushback_is_lifo',
             'error_of_a_token_covers_every_member': 'error_covers_every_token',
             'push_back_of_an_operator_redelivers_what_the_tokenizer_delivers': 'operator_vals_match_tokenizer',
             'push_back_keeps_the_value_of_value_tokens': 'value_tokens_keep_their_value',
-        }, name='btinst')
-        ck.instance_obligations(EF_IMPORTS + ['SV.Gen.ErrFmt_gen'], {
+        }, 'btinst'), (EF_IMPORTS + ['SV.Gen.ErrFmt_gen'], {
             'format_exc_fileinfo_never_raises': 'fileinfo_never_raises',
             'error_text_starts_with_the_message': 'fileinfo_starts_with_the_message',
             'error_text_is_the_message_without_file_and_line': 'fileinfo_is_the_message_without_file_and_line',
@@ -1548,7 +1545,7 @@ def run(ck: Ck) -> None:
             'error_passes_message_filename_line_num_to_error_type': 'gen_error_ctor_ok',
             'error_formats_str_messages_exactly_when_arguments_are_given': 'gen_error_str_form_ok',
             'error_refuses_a_token_with_two_values': 'gen_error_two_values_refused',
-        }, name='efinst')
+        }, 'efinst')])
         _stage(ck, 'translate+build+theorems+instances')
         corr_exhaustive(ck, escalate, started)
         _stage(ck, 'corr_exhaustive')
